@@ -417,6 +417,70 @@ def fixed_steps(ctx):
         print("GROWTH-MISMATCH module=FixedSteps %s" % m)
     return mism
 
+
+def _lr_proj(loc):
+    if "current_knee" in loc and "last_knee" in loc and "cutoff" in loc:          # lmethod.knee
+        return {"cur": int(loc["current_knee"]), "last": int(loc["last_knee"]), "cutoff": int(loc["cutoff"]), "done": bool(loc.get("done", False)),
+                "seen": sorted(int(v) for v in loc.get("visited", ()))}
+    if "knee" in loc and "last_knee" in loc and "cutoff" in loc and "gradient" in loc:     # dfdt.knee
+        return {"cur": int(loc["knee"]), "last": int(loc["last_knee"]), "cutoff": int(loc["cutoff"]), "done": False, "seen": []}
+    return None
+
+
+def _lrefine_steps_record(item):
+    import random
+    import kneeliverse.lmethod as lm
+    import kneeliverse.dfdt as dfdt
+    from harness import curves, monitor, enums
+    cid, seed = item
+    rng = random.Random(seed)
+    P = curves.random_curve(rng, 14, 70)
+    n = len(P)
+    mode = rng.choice(["none", "original", "adjusted", "dfdt"])
+    limit = rng.choice([4, 6, 10])
+    if mode == "dfdt":
+        out, val, cnt = monitor.call(dfdt.knee, (P,), {}, budget=monitor.quad(n, 64), wall=30, per={"knee": 8 * n + 64}, snap={"knee": _lr_proj})
+    else:
+        fit = enums.pick(lm.Fit, rng.choice(["point_fit", "best_fit"]))
+        out, val, cnt = monitor.call(lm.knee, (P, fit, enums.pick(lm.Refinement, mode), limit), {}, budget=monitor.quad(n, 64), wall=30,
+                                     per={"knee": 8 * n + 64}, snap={"knee": _lr_proj})
+    snaps = list(monitor._state["snaps"])
+    if out != "returned" or val is None:
+        return None
+    return {"id": cid, "n": n, "mode": mode, "limit": limit, "events": snaps, "final": int(val), "_backedges": cnt.get("knee", 0)}
+
+
+def lrefine_steps(ctx):
+    """Trace_LRefineSteps.tla: action-level trace validation of the refinement loops of lmethod.knee / dfdt.knee against LRefine.tla."""
+    items = [("lr%d" % k, ctx.seed * 8009 + k) for k in range(240 if ctx.quick else 2400)]
+    rec = [r for r in par.pmap(_lrefine_steps_record, items) if r is not None]
+    anchored = [r for r in rec if len(r["events"]) == r["_backedges"]]
+    info = {"calls_recorded": len(rec), "calls_with_snapshots": len(anchored), "loop_iterations_validated": sum(len(r["events"]) + 1 for r in anchored),
+            "modes": {k: sum(1 for r in anchored if r["mode"] == k) for k in ("none", "original", "adjusted", "dfdt")},
+            "longest_loop": max([len(r["events"]) + 1 for r in anchored] or [0]),
+            "what": "every iteration of the refinement loops of lmethod.knee (three refinement modes, limits 4 / 6 / 10, both fits) and "
+                    "dfdt.knee (locals read from the running frame at each back-edge) must be an LStep / DStep of spec/LRefine.tla: TLC "
+                    "infers the single-knee answer per cutoff, which must be admissible and the same whenever a cutoff recurs; the last "
+                    "iteration must make the loop condition false and LEnd / DEnd must leave the returned knee; note only"}
+    if len(anchored) < len(rec) // 2:
+        info["skipped"] = "the loop locals were not found in the frames of lmethod.knee / dfdt.knee (rewritten): not applicable"
+        ctx.extra.setdefault("growth", {})["LRefineSteps"] = info
+        return []
+    good = {"id": "s", "n": 30, "mode": "adjusted", "limit": 10, "events": [{"cur": 12, "last": 30, "cutoff": 21, "done": False, "seen": []},
+                                                                            {"cur": 8, "last": 12, "cutoff": 10, "done": False, "seen": []}], "final": 8}
+    goodd = {"id": "s", "n": 20, "mode": "dfdt", "limit": 10, "events": [{"cur": 9, "last": 0, "cutoff": 5, "done": False, "seen": []}], "final": 9}
+    rej = ctx.trace("Trace_LRefineSteps", [{k: r[k] for k in ("id", "n", "mode", "limit", "events", "final")} for r in anchored], chunk=400,
+                    selftest=[(good, "ok"), (goodd, "ok"),
+                              (dict(good, events=[dict(good["events"][0], cutoff=20)] + good["events"][1:]), "no-machine-step"),   # (12+30)//2 = 21
+                              (dict(good, final=7), "no-machine-step"),                     # K[10] would have to be 8 and 7
+                              (dict(goodd, events=[dict(goodd["events"][0], cutoff=4)]), "no-machine-step")])      # ceil(9/2) = 5
+    mism = [{"case": cid, "clause": vs[0][0], "detail": [str(v)[:100] for v in vs[0][1:4]]} for cid, vs in rej.items()]
+    info.update(mismatches=len(mism), first_mismatches=mism[:3])
+    ctx.extra.setdefault("growth", {})["LRefineSteps"] = info
+    for m in mism[:3]:
+        print("GROWTH-MISMATCH module=LRefineSteps %s" % m)
+    return mism
+
 def _mk_proj(loc):
     if "stack" in loc and "knees" in loc:
         return {"stack": [[int(a), int(b)] for a, b in loc["stack"]], "knees": [int(k) for k in loc["knees"]]}
